@@ -158,6 +158,7 @@ type mVersion struct {
 	NoncurrentSince *time.Time        `json:"noncurrent_since,omitempty"`
 	Seq             int               `json:"seq"`
 	ContentSeed     uint64            `json:"-"`
+	ContentVariant  int               `json:"-"`
 	Replaced        string            `json:"replaced_after_listing,omitempty"` // "", "identical", "different"
 }
 
@@ -306,6 +307,27 @@ type evaluator struct {
 	rules []ruleSpec
 	today time.Time // midnight UTC of the run day (anchor of Date rules)
 	m     *model
+	// listed is the true history as it stood when the reconciler last started
+	// a ListObjectVersions sweep: key -> (seq, was current) of every version.
+	// Retention counts are judged against that snapshot as well, because rules
+	// are evaluated on one consistent listing: versions the reconciler removed
+	// earlier in the same sweep (under another rule) still count as "newer
+	// noncurrent versions" of the ones it removes later.
+	listed map[string][]listedVersion
+}
+
+type listedVersion struct {
+	seq     int
+	current bool
+}
+
+func (e *evaluator) freezeListing() {
+	e.listed = map[string][]listedVersion{}
+	for k, l := range e.m.Keys {
+		for i, v := range l {
+			e.listed[k] = append(e.listed[k], listedVersion{seq: v.Seq, current: i == len(l)-1})
+		}
+	}
 }
 
 func (e *evaluator) dateOff(off int) time.Time { return e.today.Add(time.Duration(off) * 24 * time.Hour) }
@@ -421,6 +443,15 @@ func (e *evaluator) newerNoncurrent(key string, idx int) int {
 	n := len(l) - 1 - (idx + 1)
 	if n < 0 {
 		n = 0
+	}
+	atListing := 0
+	for _, lv := range e.listed[key] {
+		if lv.seq > l[idx].Seq && !lv.current {
+			atListing++
+		}
+	}
+	if atListing > n {
+		return atListing
 	}
 	return n
 }
